@@ -81,6 +81,7 @@ type World struct {
 	lastRefresh       time.Time
 	NoKeepAlive       bool
 	propsThisStep     int
+	createsThisStep   int
 	stepExtra         func() []TxSpec
 	providerBlockOpts func() *BlockOpts
 	consumerExtra     func(l *Link) ([]TxSpec, *BlockOpts)
